@@ -197,6 +197,9 @@ def _merge_max(dst, src):
             dst[k] = v
 
 
+_SLOWLOG = float(os.environ.get("VERIF_SLOWLOG_S", "0") or 0)       # debugging aid: report runs slower than this
+
+
 def run_batch(part, prop, tier, vseed, start, count, env, open_entries, spot_every=20,
               want_samples=0):
     S = _new_summary()
@@ -206,8 +209,11 @@ def run_batch(part, prop, tier, vseed, start, count, env, open_entries, spot_eve
         avoid = open_entries if steer else []
         rs, script = plan(part, prop, tier, vseed, idx, avoid)
         faulthandler.dump_traceback_later(RUN_TIMEOUT, exit=True)
+        t_run = time.time()
         try:
             run = execute(script, env, prop)
+            if _SLOWLOG and time.time() - t_run > _SLOWLOG:
+                sys.stderr.write("SLOW %s idx=%d %.1fs faults=%r\n" % (prop, idx, time.time() - t_run, sorted(run.faults)))
         except Exception:
             S["harness"].append({"index": idx, "trace": traceback.format_exc()[-3000:]})
             faulthandler.cancel_dump_traceback_later()
